@@ -117,6 +117,31 @@ TYPECODE_DTYPES = {"d": {"float", "np.float64", "float64", "np.double", "double"
                    "I": {"uintc", "np.uintc", "np.uint32", "uint32", "'uint32'", "'I'", "'u4'"}}
 
 
+def no_adopted_storage(ctx, rule="C15.R10"):
+    rep = ctx.rep
+    cls = ctx.model.cls("CooMatrix", COO)
+    n = 0
+    for mname, fn in cls.methods.items():
+        if mname == "__init__" or any("setter" in norm_src(d) for d in fn.decorator_list):
+            continue
+        params = {a.arg for a in fn.args.args} - {"self"}
+        for w in ast.walk(fn):
+            if isinstance(w, ast.Assign):
+                tg = [t for t in w.targets if isinstance(t, ast.Attribute) and dotted(t.value) == "self" and t.attr.lstrip("_").replace("CooMatrix__", "") in ("data", "row", "col")]
+                if not tg:
+                    continue
+                n += 1
+                v = w.value
+                if isinstance(v, ast.Attribute) and isinstance(v.value, ast.Name) and v.value.id in params:
+                    rep.bad(rule, f"{COO}:CooMatrix.{mname}", w, f"`{norm_src(w)}` adopts the storage array of the written value: both containers now append to ONE array, so a later block written "
+                            "into either of them shows up in the other (and in everything that one is nested into) - conversions of a container are no longer the sum of the blocks written "
+                            "into it", f"{COO}:{w.lineno}")
+                else:
+                    rep.ok(rule, f"{COO}:CooMatrix.{mname}", f"`{norm_src(w)[:50]}`: own storage")
+    if n == 0:
+        rep.ok(rule, f"{COO}:CooMatrix", "no method outside __init__ / the setters rebinds the storage arrays")
+
+
 def r8_raw_appends(ctx):
     """The triplets live in typed `array` objects ('d' values, 'I' indices).  `extend` / `append` / `fromlist` CONVERT each entry to the
     typecode; `frombytes` reinterprets memory.  A raw append is exact only for a buffer that has been cast to the storage type first
@@ -222,6 +247,8 @@ def run(ctx):
     rep = ctx.rep
     rep.rule("C15.R9", "every entry of a written block is appended, whatever its value (no value-dependent mask between the block and the triplets)", 1)
     r9_unfiltered(ctx)
+    rep.rule("C15.R10", "block writes COPY triplets into the container's own storage: no write path adopts the storage arrays of the written value (self.data = value.data), which would make two containers share one buffer and every later write to one appear in the other", 1)
+    no_adopted_storage(ctx)
     rep.rule("C15.R8", "the typed storage arrays grow through converting appends, or raw appends of buffers cast to the storage type", 1)
     r8_raw_appends(ctx)
     rep.rule("C15.R1", "data/row/col extended in lockstep on every path of __setitem__", 4)
@@ -602,4 +629,9 @@ NEUTRAL += [
 MUTANTS += [
     dict(id="c15-r4-memorder", canary=True, what="[seeded by sub-agent] dense blocks are appended in memory order (ravel(order='K')) with the index pattern chosen from flags.f_contiguous", file=COO,
          old='                self.data.extend(value.ravel(order="C"))\n                self.row.extend(repeat(rows, len(cols)))\n                self.col.extend(tile(cols, len(rows)))\n', new='                self.data.extend(value.ravel(order="K"))\n                if value.flags.f_contiguous:\n                    self.row.extend(tile(rows, len(cols)))\n                    self.col.extend(repeat(cols, len(rows)))\n                else:\n                    self.row.extend(repeat(rows, len(cols)))\n                    self.col.extend(tile(cols, len(rows)))\n', expect="C15.R4"),
+]
+
+MUTANTS += [
+    dict(id="c15-r10-seed", canary=True, what="[seeded by sub-agent] an empty container that receives a nested container as a whole takes over its storage arrays instead of copying", file=COO,
+         old='                # extend arrays from given CooMatrix\n                self.data.extend(value.data)\n', new="                if len(self.data) == 0 and value.shape == self.shape:\n                    self.data = value.data\n                    return\n"+'                # extend arrays from given CooMatrix\n                self.data.extend(value.data)\n', expect="C15.R10"),
 ]
